@@ -10,6 +10,7 @@ import (
 	"context"
 	"encoding/json"
 	"fmt"
+	"math"
 	"math/rand"
 	"net/http/httptest"
 	"os"
@@ -109,6 +110,13 @@ func c13Report(t *rapid.T, cfg *telemetry.UploadConfig, week string, xs []float6
 	// duplicate X within and across days are frequent
 	if len(xs) > 0 && rapid.IntRange(0, 2).Draw(t, "dupX") == 0 {
 		r.X = xs[rapid.IntRange(0, len(xs)-1).Draw(t, "dupIdx")]
+		// ... or a neighbour of an earlier X: a different report ID that differs only in the last bits
+		switch rapid.IntRange(0, 5).Draw(t, "nearX") {
+		case 0:
+			r.X = math.Nextafter(r.X, 2)
+		case 1:
+			r.X += 1e-9
+		}
 	} else {
 		r.X = rapid.OneOf(rapid.Float64Range(0.001, 1), rapid.SampledFrom([]float64{0.5, 0.25, 1})).Draw(t, "x")
 	}
